@@ -82,7 +82,7 @@ def _variants(history):
                 new = copy.deepcopy(history)
                 new[i]["key_dtype"] = "int64"
                 yield new
-        for flag in ("as_list", "q_dtype", "b_dtype", "default_init", "np_key", "keys_as_list", "reuse"):
+        for flag in ("as_list", "q_dtype", "b_dtype", "default_init", "np_key", "keys_as_list", "reuse", "mod_np", "values_as_list"):
             if flag in op:
                 new = copy.deepcopy(history)
                 del new[i][flag]
